@@ -328,6 +328,7 @@ func runC01(w *World, r *Report) {
 	}
 	c01Quota(w, r)
 	c01Hierarchy(w, r, la)
+	c01ChildAllocationUsesACopy(w, r)
 	r.Min("R1", 8)
 	r.Min("R2", 3)
 	r.Min("R3", 6)
@@ -858,4 +859,42 @@ func productOf(v ssa.Value, isVar VP) (int, int64, bool) {
 		return n1 + n2, f1 * f2, ok1 && ok2
 	}
 	return 0, 0, false
+}
+
+// c01ChildAllocationUsesACopy: a child's percentage allocation is computed on
+// a deep copy of the parent's strategy configuration; the child never holds
+// (and then rewrites the maximum of) the parent's own configuration object.
+func c01ChildAllocationUsesACopy(w *World, r *Report) {
+	f := w.Fn(pkgQuota, "AssignQuotaLimitForPercentageAllocation")
+	if f == nil {
+		r.Undec("R10", "AssignQuotaLimitForPercentageAllocation", token.NoPos, "function not found")
+		return
+	}
+	copies := CallsIn(f, false, "configuration.YAMLBasedDeepCopy")
+	n := 0
+	ok := len(copies) == 1 && len(f.Params) == 2
+	var why []string
+	Instrs(f, func(in ssa.Instruction) {
+		st, isSt := in.(*ssa.Store)
+		if !isSt {
+			return
+		}
+		fa, isFA := st.Addr.(*ssa.FieldAddr)
+		if !isFA || fa.X != ssa.Value(f.Params[0]) {
+			return
+		}
+		fld := fieldName(fa.X.Type(), fa.Field)
+		if fld != "FixedWindow" && fld != "FixedWindowCustomCounter" {
+			return
+		}
+		n++
+		fromCopy := len(copies) == 1 && Derives(st.Val, func(x ssa.Value) bool { return x == copies[0].Value() })
+		fromParent := Derives(st.Val, func(x ssa.Value) bool { return x == ssa.Value(f.Params[1]) }) && !fromCopy
+		sameField := strings.HasSuffix(Path(st.Val), "."+fld)
+		if !fromCopy || fromParent || !sameField {
+			ok = false
+			why = append(why, fld+" <- "+trunc(Path(st.Val), 60))
+		}
+	})
+	r.Check(ok && n == 2, "R10", "AssignQuotaLimitForPercentageAllocation/child-gets-a-copy", f.Pos(), "the child's window configuration is taken from the deep copy of the parent's (same strategy field), so scaling the child's maximum leaves the parent's limit untouched %v", why)
 }
